@@ -1,4 +1,5 @@
 import CddVerif.Model.Adhoc
+import CddVerif.Proofs.Adhoc
 import CddVerif.Gen.EvalSites
 /-!
 # C17 — analysing source never executes it or touches anything but the output
@@ -151,16 +152,6 @@ theorem no_call_syntax (doc name : CStr) (b : Bool) (t : CStr) (h : adhocStr doc
     '(' ∉ t ∧ ')' ∉ t :=
   ⟨eval_arg_excludes doc name b t h '(' (by decide), eval_arg_excludes doc name b t h ')' (by decide)⟩
 
-/-- a string without `_` has no `__` in it -/
-theorem not_contains_of_not_mem (t : CStr) (c : Char) (rest : CStr) (h : c ∉ t) : containsSub t (c :: rest) = false := by
-  induction t with
-  | nil => simp [containsSub]
-  | cons d ds ih =>
-    have hd : d ≠ c := fun e => h (by simp [e])
-    have hds : c ∉ ds := fun e => h (by simp [e])
-    have hd' : c ≠ d := fun e => hd e.symm
-    simp [containsSub, List.isPrefixOf, hd', ih hds]
-
 /-- **Corollary (no dunder name):** the evaluated expression contains no underscore at all, in particular no `__`;
     nor `=` (assignment expression, keyword argument) nor `:` (lambda, walrus, slice). -/
 theorem no_dunder (doc name : CStr) (b : Bool) (t : CStr) (h : adhocStr doc name b = .ok (some t)) :
@@ -177,22 +168,6 @@ theorem tables_match :
     Gen.EvalSites.adhocTypeToType = adhocTypeToType ∧ Gen.EvalSites.tuple3ToType = tuple3ToType ∧
     Gen.EvalSites.tuple3ToCollection = tuple3ToCollection ∧ Gen.EvalSites.typeToName = typeToName ∧
     Gen.EvalSites.simpleTypes = simpleTypes ∧ Gen.EvalSites.kwlist = kwlist := by decide
-
-theorem wordChar_ascii (c : Char) (h : wordChar c = true) : c.toNat < 128 := by
-  simp only [wordChar, isAsciiDigit, isAsciiLetter, isAsciiLower, isAsciiUpper, Bool.or_eq_true, Bool.and_eq_true, decide_eq_true_eq,
-    beq_iff_eq] at h
-  have e (a b : Char) : a ≤ b ↔ a.toNat ≤ b.toNat := by
-    show a.val ≤ b.val ↔ _
-    rw [UInt32.le_iff_toNat_le]; rfl
-  rcases h with (((((h | h) | h) | h) | h) | h) | h
-  · have := (e _ _).mp h.2; have : ('9' : Char).toNat = 57 := by decide
-    omega
-  · rcases h with h | h
-    · have := (e _ _).mp h.2; have : ('z' : Char).toNat = 122 := by decide
-      omega
-    · have := (e _ _).mp h.2; have : ('Z' : Char).toNat = 90 := by decide
-      omega
-  all_goals (subst h; decide)
 
 /-- **Tie to the source text:** the model's `wordChar` is exactly the code's `word_chars` string (regenerated): every
     character of the string passes `wordChar`, and every character that passes `wordChar` (necessarily ASCII) is in it. -/
